@@ -119,9 +119,10 @@ def _direct_collectives(fnode):
             yield n
 
 
-def _guard_param(fnode, node, par):
-    """If `node` sits under `if <p>:` (or `if <p> and ...`) for a parameter p of fnode with a constant default, return p."""
+def _guard_params(fnode, node, par):
+    """Parameters p of fnode such that `node` sits under `if p:` (or `if p and ...`)."""
     pnames = [a.arg for a in fnode.args.args]
+    out = set()
     cur, child = par.get(id(node)), node
     while cur is not None and cur is not fnode:
         if isinstance(cur, ast.If) and child in cur.body:
@@ -129,9 +130,9 @@ def _guard_param(fnode, node, par):
             cands = [t] + (list(t.values) if isinstance(t, ast.BoolOp) and isinstance(t.op, ast.And) else [])
             for c in cands:
                 if isinstance(c, ast.Name) and c.id in pnames:
-                    return c.id
+                    out.add(c.id)
         child, cur = cur, par.get(id(cur))
-    return None
+    return out
 
 
 def may_collect_table(trees):
@@ -144,13 +145,14 @@ def may_collect_table(trees):
     table = {}
     for key, f in funcs.items():
         par = _parents(f)
-        guards = set()
+        common = None
         anyc = False
         for c in _direct_collectives(f):
             anyc = True
-            guards.add(_guard_param(f, c, par))
+            g = _guard_params(f, c, par)
+            common = g if common is None else (common & g)
         if anyc:
-            table[key] = guards.pop() if len(guards) == 1 else None
+            table[key] = sorted(common)[0] if common else None
     changed = True
     while changed:
         changed = False
